@@ -44,7 +44,12 @@ class StepLoop(asyncio.AbstractEventLoop):
                 # symbolic values would be realised) and it would also swallow CrossHair's BaseExceptions
                 try:
                     h._context.run(h._callback, *h._args)
-                except Exception as exc:  # noqa: BLE001
+                except BaseException as exc:  # noqa: BLE001  (asyncio's Handle._run does the same)
+                    if isinstance(exc, (SystemExit, KeyboardInterrupt)) or type(exc).__module__.startswith('crosshair'):
+                        raise
+                    for klass in type(exc).__mro__:
+                        if klass.__module__.startswith('crosshair'):
+                            raise
                     self.errors.append({'message': 'Exception in callback ' + getattr(h._callback, '__qualname__', '?'),
                                         'exception': exc})
             finally:
